@@ -1,6 +1,7 @@
 import XModel.Unique
 import XModel.Capstone
 import XModel.ManagerC20
+import XModel.ManagerC20Fn
 import XProofs.Properties.C01
 /-!
 # C20 — results do not depend on the build or the hash seed
@@ -79,5 +80,37 @@ theorem C20_order_matters_outside_scope :
     get (setValue order2 afterDefs Properties.C01.nz (.int 5)).1.store Properties.C01.ny = .ok (.int 11) :=
   ⟨rfl, rfl⟩
 end witness
+
+/-- **expression AND function tasks**: the same order independence when the triggered tasks may be `FunctionTask`s
+    (bodies of `target := expression` lines run in order, one node of the graph with declared dependencies and targets):
+    any two legal schedules give the same container tree, definitions, indices and knob memories, and the second
+    completes whenever the first does.  Scope: `ScopeF` (sound declarations, C01's function-task scope) and every
+    location a triggered task writes readable before the assignment (true in every consistent state:
+    `writeAndRun_sched_indepF_consistent`). -/
+theorem C20_function_tasks (sched1 sched2 : Sched) (s : MState) (p : Path) (v : Val) (hi : MInv s)
+    (sc : ScopeF s p)
+    (hvs1 : ValidSched (gOf s.idx) (findTaskids s.idx (chainR p)) (sched1 (findTaskids s.idx (chainR p))))
+    (hvs2 : ValidSched (gOf s.idx) (findTaskids s.idx (chainR p)) (sched2 (findTaskids s.idx (chainR p))))
+    (hexist : ∀ t ∈ s.defs, t.id ∈ findTaskids s.idx (chainR p) → ∀ it ∈ itemsOf t, ∃ w, get s.store it.target = .ok w)
+    (s1 : MState) (hok : writeAndRun sched1 s p v = (s1, none)) :
+    ∃ s2, writeAndRun sched2 s p v = (s2, none) ∧ s2.store = s1.store ∧ s2.defs = s1.defs ∧ s2.idx = s1.idx ∧
+      s2.frozen = s1.frozen ∧ s2.prev = s1.prev ∧ s2.faultIn = s1.faultIn :=
+  writeAndRun_sched_indepF' sched1 sched2 s p v hi sc hvs1 hvs2 hexist s1 hok
+
+/-- the same with every hypothesis a decidable test the driver can evaluate on a line of a history -/
+theorem C20_function_tasks_decided (sched1 sched2 : Sched) (s : MState) (p : Path) (v : Val) (hi : MInv s)
+    (hsc : scopeFB s p = true)
+    (hv1 : validSchedule s.idx (chainR p) (sched1 (findTaskids s.idx (chainR p))) = true)
+    (hv2 : validSchedule s.idx (chainR p) (sched2 (findTaskids s.idx (chainR p))) = true)
+    (hex : targetsExistB s p = true)
+    (s1 : MState) (hok : writeAndRun sched1 s p v = (s1, none)) :
+    ∃ s2, writeAndRun sched2 s p v = (s2, none) ∧ s2.store = s1.store ∧ s2.defs = s1.defs ∧ s2.idx = s1.idx ∧
+      s2.frozen = s1.frozen ∧ s2.prev = s1.prev ∧ s2.faultIn = s1.faultIn :=
+  writeAndRun_sched_indepF_decided sched1 sched2 s p v hi hsc hv1 hv2 hex s1 hok
+
+/-- non-vacuity: `c = a + b` next to the function task `#G : e := a*2 ; f := a+1`; the schedules `[#G, c]` and
+    `[c, #G]` are both legal and the hypotheses hold -/
+example : scopeFB C20FnExample.sG C20FnExample.da = true ∧ targetsExistB C20FnExample.sG C20FnExample.da = true :=
+  ⟨C20FnExample.sG_hyps.1, C20FnExample.sG_hyps.2.1⟩
 
 end Properties.C20
